@@ -331,10 +331,17 @@ pub fn family2(prop: &str, i: u64, rng: &mut Rng, out: &mut Outcome, dir: &std::
     let planted_role = if planted_by == f.n1 { "non-admin" } else { "other-admin" };
     let victim_pk = f.w.clients[f.n2].pk();
     let kind = rng.below(3);
+    // what the planted proposal would do if somebody committed it
+    let mut planted_adds: BTreeSet<PublicKey> = BTreeSet::new();
+    let mut planted_removes: BTreeSet<PublicKey> = BTreeSet::new();
     let (plabel, pbytes) = match kind {
-        0 => ("Remove(other)", with_mdk!(f.w.clients[planted_by].mdk, x => adv::mls_proposal(x, &gid, &adv::RawProposal::Remove(victim_pk)))),
+        0 => {
+            planted_removes.insert(victim_pk);
+            ("Remove(other)", with_mdk!(f.w.clients[planted_by].mdk, x => adv::mls_proposal(x, &gid, &adv::RawProposal::Remove(victim_pk))))
+        }
         1 => {
             let j = f.w.add_client(BackendKind::Memory, mdk_core::MdkConfig::default(), rng);
+            planted_adds.insert(f.w.clients[j].pk());
             let ev = f.w.clients[j].key_package_event();
             let kp = with_mdk!(f.w.clients[j].mdk, x => x.parse_key_package(&ev)).ok();
             ("Add(outsider)", kp.and_then(|kp| with_mdk!(f.w.clients[planted_by].mdk, x => adv::mls_proposal(x, &gid, &adv::RawProposal::Add(kp)))))
@@ -418,7 +425,11 @@ pub fn family2(prop: &str, i: u64, rng: &mut Rng, out: &mut Outcome, dir: &std::
         let removed: BTreeSet<_> = b.members.difference(&a.members).copied().collect();
         let gd_changed = a.gd != b.gd;
         if added != named.adds || removed != named.removes || gd_changed != named.gd_changed {
-            let pred = if planted && (added.len() > named.adds.len() || removed.len() > named.removes.len()) { "admin-op-commits-foreign-pending-proposals" } else { "unexplained" };
+            // the known finding explains exactly this: the delta is what the call names PLUS what the
+            // planted proposal names, nothing else
+            let with_planted_adds: BTreeSet<_> = named.adds.union(&planted_adds).copied().collect();
+            let with_planted_removes: BTreeSet<_> = named.removes.union(&planted_removes).copied().collect();
+            let pred = if planted && added == with_planted_adds && removed == with_planted_removes && gd_changed == named.gd_changed { "admin-op-commits-foreign-pending-proposals" } else { "unexplained" };
             out.violation(
                 format!("{prop}|admin-op-changed-more-than-named|{pred}"),
                 format!("{label}: at c{c} the operation added {} (named {}), removed {} (named {}), group data changed {} (named {})", added.len(), named.adds.len(), removed.len(), named.removes.len(), gd_changed, named.gd_changed),
